@@ -427,7 +427,9 @@ Warning: rounding to n-th business day not supported for input value");
 		switch (d.typ) {
 			unsigned int mdays;
 		case DT_YMD:
-			tgt = dur.durtyp == DT_DURYMD ? dur.ymd.m : dur.dv;
+			/* the month is the magnitude, the sign the direction */
+			tgt = dur.durtyp == DT_DURYMD ? dur.ymd.m
+				: dur.dv >= 0 ? dur.dv : -dur.dv;
 			forw = !dt_dur_neg_p(dur);
 
 			if ((forw && d.ymd.m < tgt) ||
